@@ -178,7 +178,7 @@ static void s_obuf_free(struct obuf *o) {
 struct xml_ctx {
     const char *prog;
     size_t prog_len;
-    size_t calls, nodes, bodies, attrs, depth, maxdepth, aborts;
+    size_t calls, nodes, bodies, bodylen, attrs, depth, maxdepth, aborts;
     struct vchk v;
     const char *chan_bad;
 };
@@ -227,6 +227,7 @@ static int s_xml_cb(struct aws_xml_node *node, void *ud) {
                 return AWS_OP_ERR;
             }
             c->bodies++;
+            c->bodylen += body.len;
             s_vchk(&c->v, "body", body);
             return AWS_OP_SUCCESS;
         }
@@ -259,9 +260,10 @@ static void s_run_xml(const uint8_t *p, size_t n, const char *variant, const cha
     printf("P xml %s parse ", variant);
     s_class(rc);
     printf(
-        " nodes=%zu bodies=%zu attrs=%zu maxdepth=%zu aborts=%zu chan=%s views=%s canary=-\n",
+        " nodes=%zu bodies=%zu bodylen=%zu attrs=%zu maxdepth=%zu aborts=%zu chan=%s views=%s canary=-\n",
         c.nodes,
         c.bodies,
+        c.bodylen,
         c.attrs,
         c.maxdepth,
         c.aborts,
@@ -399,13 +401,32 @@ static void s_run_cbor_consume(const uint8_t *p, size_t n, const char *variant) 
 }
 
 /* ------------------------------------------------------------------ URI, query string, percent-decoding */
+static uint64_t s_kv_hash; /* FNV-1a over "koff,klen,voff,vlen;" of every parameter of the last iteration (framing) */
+
+static void s_kv_add(const uint8_t *base, struct aws_byte_cursor key, struct aws_byte_cursor value) {
+    char buf[96];
+    int n = snprintf(
+        buf,
+        sizeof(buf),
+        "%td,%zu,%td,%zu;",
+        base && key.ptr ? (ptrdiff_t)(key.ptr - base) : (ptrdiff_t)-1,
+        key.len,
+        base && value.ptr ? (ptrdiff_t)(value.ptr - base) : (ptrdiff_t)-1,
+        value.len);
+    for (int i = 0; i < n; ++i) {
+        s_kv_hash = (s_kv_hash ^ (uint8_t)buf[i]) * 1099511628211ull;
+    }
+}
+
 static void s_query_iter(struct aws_byte_cursor q, struct vchk *v, size_t *count, const char **mon) {
     struct aws_uri_param param;
     AWS_ZERO_STRUCT(param);
     size_t k = 0;
+    s_kv_hash = 14695981039346656037ull;
     while (aws_query_string_next_param(q, &param)) {
         s_vchk(v, "param-key", param.key);
         s_vchk(v, "param-value", param.value);
+        s_kv_add(q.ptr, param.key, param.value);
         if (++k > q.len + 2) {
             *mon = "BAD:query-iteration-does-not-end";
             break;
@@ -441,6 +462,41 @@ static void s_run_uri(const uint8_t *p, size_t n, const char *variant) {
     s_vchk(&v, "path", *aws_uri_path(&uri));
     s_vchk(&v, "query_string", *aws_uri_query_string(&uri));
     s_vchk(&v, "path_and_query", *aws_uri_path_and_query(&uri));
+    /* framing: the component views tile the text (checked only where the component is present) */
+    {
+        const uint8_t *base = uri.uri_str.buffer, *end = uri.uri_str.buffer + uri.uri_str.len;
+        const struct aws_byte_cursor sc = uri.scheme, au = uri.authority, pa = uri.path, qs = uri.query_string, pq = uri.path_and_query;
+        if (!mon && sc.ptr && sc.ptr != base) {
+            mon = "BAD:framing:scheme-does-not-start-the-text";
+        }
+        if (!mon && sc.ptr && au.ptr && au.ptr != sc.ptr + sc.len + 3) {
+            mon = "BAD:framing:authority-does-not-follow-scheme://";
+        }
+        if (!mon && !sc.ptr && au.len && au.ptr != base) {
+            mon = "BAD:framing:authority-does-not-start-the-text";
+        }
+        if (!mon && pq.ptr && pq.ptr + pq.len != end) {
+            mon = "BAD:framing:path_and_query-does-not-end-the-text";
+        }
+        if (!mon && pq.ptr && au.ptr && au.ptr + au.len != pq.ptr) {
+            mon = "BAD:framing:path_and_query-does-not-follow-authority";
+        }
+        if (!mon && pa.len && pa.ptr != pq.ptr) {
+            mon = "BAD:framing:path-does-not-start-path_and_query";
+        }
+        if (!mon && qs.ptr && qs.ptr + qs.len != end) {
+            mon = "BAD:framing:query-does-not-end-the-text";
+        }
+        if (!mon && qs.ptr && pq.ptr && qs.ptr != pq.ptr + pa.len + 1) {
+            mon = "BAD:framing:query-does-not-follow-path-and-question-mark";
+        }
+        if (!mon && qs.ptr && qs.ptr > base && qs.ptr[-1] != '?') {
+            mon = "BAD:framing:query-is-not-preceded-by-a-question-mark";
+        }
+        if (!mon && !pq.ptr && au.ptr && au.ptr + au.len != end) {
+            mon = "BAD:framing:authority-only-text-does-not-end-with-authority";
+        }
+    }
     size_t params = 0;
     s_query_iter(*aws_uri_query_string(&uri), &v, &params, &mon);
     printf(" port=%u params=%zu chan=%s views=%s canary=-\n", aws_uri_port(&uri), params, mon ? mon : "ok", s_vres(&v));
@@ -454,6 +510,7 @@ static void s_run_query(const uint8_t *p, size_t n, const char *variant) {
     size_t params = 0, params2 = 0;
     const char *mon = NULL;
     s_query_iter(cur, &v, &params, &mon);
+    uint64_t kv = s_kv_hash;
     struct aws_array_list lst;
     aws_array_list_init_dynamic(&lst, hc_allocator(), 4, sizeof(struct aws_uri_param));
     aws_reset_error();
@@ -471,7 +528,7 @@ static void s_run_query(const uint8_t *p, size_t n, const char *variant) {
     }
     printf("P query %s iterate ", variant);
     s_class(rc);
-    printf(" params=%zu chan=%s views=%s canary=-\n", params, mon ? mon : s_chan(rc != 0), s_vres(&v));
+    printf(" params=%zu kv=%016llx chan=%s views=%s canary=-\n", params, (unsigned long long)kv, mon ? mon : s_chan(rc != 0), s_vres(&v));
 }
 
 static void s_run_uridec(const uint8_t *p, size_t n, const char *variant, size_t pre, size_t cap, bool show) {
@@ -522,13 +579,22 @@ static void s_run_date(const uint8_t *p, size_t n, const char *variant) {
         memset(&dt, CANARY, sizeof(dt));
         aws_reset_error();
         int rc = aws_date_time_init_from_str_cursor(&dt, &cur, fmts[i]);
+        /* dt.tz is a C string handed to strlen() by the library: unless the call refused the text before touching dt
+         * (length precondition: dt still holds the canary) it must keep a NUL inside its 6 bytes */
+        const char *can = "ok";
+        if ((uint8_t)dt.tz[0] != CANARY || rc == AWS_OP_SUCCESS) {
+            if (!memchr(dt.tz, 0, sizeof(dt.tz))) {
+                can = "BAD:tz-not-NUL-terminated";
+            }
+        }
         printf("P date %s %s ", variant, names[i]);
         s_class(rc);
-        printf(" chan=%s views=- canary=-\n", s_chan(rc != 0));
+        printf(" chan=%s views=- canary=%s\n", s_chan(rc != 0), can);
     }
     if (n <= AWS_DATE_TIME_STR_MAX_LEN + 8) {
         /* the byte_buf entry point */
         struct aws_byte_buf b = aws_byte_buf_from_array(p, n);
+        b.capacity = n + 9; /* a parser may look at [0, len) only: behind len lies the red zone, whatever capacity says */
         struct aws_date_time dt;
         aws_reset_error();
         int rc = aws_date_time_init_from_str(&dt, &b, AWS_DATE_FORMAT_AUTO_DETECT);
@@ -591,6 +657,23 @@ static void s_run_b64(const uint8_t *p, size_t n, const char *variant, bool port
         need = 0;
     }
     s_decode_variants(parser, variant, portable ? pt_aws_base64_decode : aws_base64_decode, cur, need);
+    if (!portable) {
+        /* the AVX2-dispatching decoder and the portable build of the same source must frame the text alike: same verdict,
+         * same length, same bytes (a decoder that accepts what its twin rejects has mis-read its input) */
+        struct obuf o1, o2;
+        struct aws_byte_buf b1 = s_obuf_make(&o1, need, false), b2 = s_obuf_make(&o2, need, false);
+        aws_reset_error();
+        int r1 = aws_base64_decode(&cur, &b1);
+        int r2 = pt_aws_base64_decode(&cur, &b2);
+        bool same = (r1 == r2) && (r1 || (b1.len == b2.len && (b1.len == 0 || !memcmp(b1.buffer, b2.buffer, b1.len))));
+        printf(
+            "P b64 %s paths %s chan=ok views=- canary=%s\n",
+            variant,
+            r1 ? "ERR -" : "OK",
+            same ? "ok" : "BAD:avx2-dispatch-and-portable-decoders-disagree");
+        s_obuf_free(&o1);
+        s_obuf_free(&o2);
+    }
 }
 
 static void s_run_hex(const uint8_t *p, size_t n, const char *variant) {
@@ -681,6 +764,33 @@ static void s_run_utf8(const uint8_t *p, size_t n, const char *variant, uint64_t
     printf("P utf8 %s chunked ", variant);
     s_class(rc2);
     printf(" cps=%zu chunks=%zu chan=%s views=- canary=-\n", c2.count, chunks, s_chan(rc2 != 0));
+    /* the same decoder object, after finalize (which resets it), must treat the text exactly like a fresh one: nothing of
+     * the previous run may be left behind */
+    {
+        struct u8_ctx c3 = {.fail_at = fail_at};
+        opt2.user_data = &c3;
+        struct aws_utf8_decoder *d3 = aws_utf8_decoder_new(hc_allocator(), &opt2);
+        /* first a run that stops in the middle of a code point, then finalize (fails, resets) */
+        static const uint8_t partial[] = {0xF0, 0x9F, 0x98};
+        (void)aws_utf8_decoder_update(d3, aws_byte_cursor_from_array(partial, sizeof(partial)));
+        (void)aws_utf8_decoder_finalize(d3);
+        c3.count = 0;
+        c3.sum = 0;
+        aws_reset_error();
+        int rc3 = aws_utf8_decoder_update(d3, cur);
+        if (!rc3) {
+            rc3 = aws_utf8_decoder_finalize(d3);
+        }
+        int e3 = rc3 ? aws_last_error() : 0;
+        bool same3 = (rc3 == rc1) && e3 == e1 && (rc1 || (c3.count == c1.count && c3.sum == c1.sum));
+        printf(
+            "P utf8 %s reused_decoder %s chan=%s views=- canary=%s\n",
+            variant,
+            rc3 ? "ERR -" : "OK",
+            s_chan(rc3 != 0),
+            same3 ? "ok" : "BAD:state-of-a-previous-run-left-in-the-decoder");
+        aws_utf8_decoder_destroy(d3);
+    }
     /* conformance note (C05's business, not a C04 clause): both routes agree */
     bool same = (rc1 == rc2) && e1 == e2 && (rc1 || (c1.count == c2.count && c1.sum == c2.sum)) && (rc0 == rc1 || fail_at);
     printf("W utf8 %s chunked-vs-oneshot %s\n", variant, same ? "same" : "DIFF");
